@@ -99,6 +99,19 @@ def replay(ctx, binary, jobs, workers):
             label, len(behs), d.get("replays_ok", 0), d.get("lines", 0), d.get("errclass_drift", 0)))
 
 
+def require_acts(behs, acts, what):
+    """Vacuity guard: every action of the spec occurs in the behaviours that are replayed."""
+    seen = set()
+    for b in behs:
+        for s in b:
+            seen.add(s["act"])
+            if "via" in s:
+                seen.add("via:" + s["via"])
+    missing = sorted(set(acts) - seen)
+    if missing:
+        raise vlib.Inconclusive("VACUOUS", "%s: no behaviour takes %s" % (what, missing))
+
+
 def run(ctx):
     binary = vlib.go_build("grc20", ctx)
     case = ctx.replay_case()
@@ -121,7 +134,7 @@ def run(ctx):
                 ("exhaustive 3 accounts cap 7, <= 4 calls", "GRC20_t2.cfg", None, "check"),
                 ("witness: TransferFrom as coded", "GRC20_w.cfg", None, "witness"),
                 ("simulation 3 accounts cap 7, 30 calls", "GRC20_sim.cfg", (3, 7), "sim")]
-        nsim, kstr = 120, 12
+        nsim, kstr = 120, 8
 
     def tlc(run_):
         label, cfg, dims, mode = run_
@@ -142,9 +155,8 @@ def run(ctx):
         behs = None
         if mode == "edge":
             behs = vlib.dedup_prefix(r.traces)
-            if quick:
-                behs, ns = stratified(behs, kstr, ctx.seed)
-                ctx.cov["strata_quick"] = ns
+            behs, ns = stratified(behs, kstr if quick else 8, ctx.seed)
+            ctx.cov["strata_qe"] = ns
         elif mode == "edge-sampled":
             behs, ns = stratified(r.traces, kstr, ctx.seed)
             ctx.cov["strata_te"] = ns
@@ -154,6 +166,8 @@ def run(ctx):
             jobs.append((label, dims[0], dims[1], behs))
         ctx.log("TLC %s: %d distinct states, %d transitions, %d behaviours emitted, %d replayed, %.1fs" % (
             label, r.distinct, r.generated, len(r.traces), len(behs or []), r.wall))
+    require_acts([b for _, _, _, bs in jobs for b in bs], ["Mint", "Burn", "Transfer", "Approve", "TransferFrom", "SpendAllowance",
+                                                           "via:ledger", "via:imp", "via:realm", "via:caller", "via:ro"], "C51")
     replay(ctx, binary, jobs, 4 if quick else 8)
     ctx.cov["exhaustive"] = True
     ctx.assumptions += [
